@@ -165,6 +165,8 @@ def mutate(spec, rng):
         nodes[tgt]['marks'].insert(pos, ['g' + str(used), {'kind': 'generic', 'src': rng.choice(cands)}])
     else:
         nodes[tgt]['defect'] = kind
+        if kind == 'unannotated':
+            nodes[tgt]['unannotated_kind'] = rng.choice(['pos', 'pos', 'kwonly', 'kwonly_default', 'varkw', 'varpos'])
         if kind in ('no_annotations',) and not (nodes[tgt]['marks'] or nodes[tgt].get('plain') or nodes[tgt].get('has_additional')):
             pass        # class_source adds a dummy parameter
     return sp, kind, tgt, tgt in reachable(sp)
